@@ -60,7 +60,7 @@ def run(prop, tier, seed, replay):
         import props_core as PC
         cases_path = os.path.join(work, "cases.ndjson")
         open(cases_path, "w").close()
-        profs = [(PC.CORE, "fault_q"), (PC.CORE, "redir_q"), (PC.CHAIN, "chain_q"), ("MC_Npm.tla", "npm_q"), ("MC_Fin.tla", "fin_q")] + ([(PC.CORE, "redir_t"), (PC.CHAIN, "chain_t"), ("MC_Npm.tla", "npm_t"), ("MC_Fin.tla", "fin_t")] if tier == "thorough" else [])
+        profs = [(PC.CORE, "fault_q"), (PC.CORE, "redir_q"), (PC.CORE, "optdyn_q"), (PC.CORE, "optskip_q"), (PC.CHAIN, "chain_q"), ("MC_Npm.tla", "npm_q"), ("MC_Fin.tla", "fin_q"), ("MC_Imports.tla", "imports_q")] + ([(PC.CORE, "redir_t"), (PC.CHAIN, "chain_t"), ("MC_Npm.tla", "npm_t"), ("MC_Fin.tla", "fin_t")] if tier == "thorough" else [])
         for mod, cfgname in profs:
             r = P.tlc_mc(os.path.join(MC, mod), os.path.join(MC, cfgname + ".cfg"), work, workers=min(8, P.NCPU), timeout=7200)
             if r["errors"]:
@@ -76,8 +76,7 @@ def run(prop, tier, seed, replay):
         res = json.load(open(res_path))
         fn_cases = res["cases"]
         fn_calls = res["builds"]
-        with open(cases_path) as fh:
-            case_lines = fh.readlines()
+        case_lines = P.Lines(cases_path)
         for m in res["mismatches"]:
             if "C03" in m.get("prop", []) or m["what"] == "graph":
                 P.absorb_replay_mismatch(out, prop, m, json.loads(case_lines[m["case"]]))
